@@ -438,7 +438,7 @@ theorem connect_left_total {c other : Circuit} {thisC otherC : List Label} {name
     rw [List.any_eq_false]
     intro l hl
     simp [hoth l hl]
-  simp only [hnd', Bool.not_true, hlen', hty', Bool.false_eq_true, if_false, hts]
+  simp only [hnd', Bool.not_true, Bool.false_and, Bool.or_false, hlen', hty', Bool.false_eq_true, if_false, hts]
   have hfold' : order.foldl (connStep other (connMapping thisC otherC) (connPre name addP) false)
       (.ok ⟨c, connMapping thisC otherC, []⟩) = .ok st := hfold
   simp only [hfold']
@@ -620,7 +620,7 @@ theorem connect_right_total {c other : Circuit} {thisC otherC : List Label} {nam
     (hblk : c.blocks.any (fun b => b.name == name) = false)
     (hthisI : ∀ l ∈ thisC, (c.find? l).map (·.ty) = some INPUT)
     (hothL : ∀ l ∈ otherC, l ∈ other.labels)
-    (hndt : thisC.Nodup) (hlen : thisC.length = otherC.length)
+    (hndt : thisC.Nodup) (hndo : otherC.Nodup) (hlen : thisC.length = otherC.length)
     (hfresh : ∀ g ∈ other.gates, g.label ∉ otherC → connPre name addP ++ g.label ∉ c.labels)
     (hbn : ∀ b ∈ other.blocks, c.blocks.any (fun x => x.name == connPre name addP ++ b.name) = false)
     (hbd : (other.blocks.map (·.name)).Nodup)
@@ -806,7 +806,8 @@ theorem connect_right_total {c other : Circuit} {thisC otherC : List Label} {nam
     rw [List.any_eq_false]
     intro l hl
     simp [hthisI l hl]
-  simp only [hnd', Bool.not_true, hlen', hty', Bool.false_eq_true, if_false, hts]
+  have hnd'' : nodupL otherC = true := (nodupL_iff _).mpr hndo
+  simp only [hnd', hnd'', Bool.not_true, Bool.true_and, Bool.or_self, hlen', hty', Bool.false_eq_true, if_false, hts]
   have hfold' : order.foldl (connStep other (connMapping thisC otherC) (connPre name addP) true)
       (.ok ⟨c, connMapping thisC otherC, []⟩) = .ok st := hfold
   simp only [hfold']
